@@ -32,7 +32,8 @@ LEVEL_TEXT = (
     "unclassified statement, to the reference programs; C05_model_is_program_denotation: for every handler, user table, argument, "
     "data action, appe flag, delegation callback and world the interpreter applied to the translated program yields exactly the "
     "model's body - hypotheses only for rnto/pass_ (the attribute their own decorator requires is present) and pwd (no double quote "
-    "in the directory, where the MODEL is wrong: C05_pwd_model_ignores_quote_doubling); PASV/EPSV listener start, socket choice, "
+    "in the directory, where the MODEL is wrong: C05_pwd_model_ignores_quote_doubling); C05_handler_is_program_denotation lifts it "
+    "through the decorator stacks to the whole handler for every world; PASV/EPSV listener start, socket choice, "
     "transfer workers, user manager, throttles are named abstraction nodes of that language) "
     "and by bounded-exhaustive + random histories run against the real server (validation, not proof)."
 )
